@@ -13,7 +13,7 @@ from .core import (I, B, conc, And, Or, Not, Implies, Ite, Min, Max, in_range, F
                    SRec, SFile, SymList, Opaque, Buf, Unsupported, PathEnd, is_sym)
 
 BUILTINS = {len, range, zip, int, bool, sum, all, any, isinstance, hasattr, min, max, ord, enumerate, list,
-            tuple, str, abs, getattr, sorted, reversed, dict, set, bytes, chr, float, print, type, iter, next}
+            tuple, str, abs, getattr, setattr, sorted, reversed, dict, set, bytes, chr, float, print, type, iter, next}
 FUNC_MODELS = {}
 CLASS_MODELS = {}
 
@@ -139,6 +139,18 @@ def call_builtin(ip, fn, args, kwargs, lineno):
             if len(args) > 2:
                 return args[2]
             raise
+    if fn is setattr:
+        o, name, v = args
+        if isinstance(o, SRec):
+            custom = ip.custom_setattr(o)
+            if custom is not None:
+                return ip.call_real(custom[0], [o, name, v], {}, lineno, owner=custom[1])
+            o.set(name, v)
+            return None
+        if hasattr(o, "setattr"):
+            o.setattr(name, v)
+            return None
+        raise Unsupported("setattr on %r" % (o,))
     if fn in (min, max):
         xs = args if len(args) > 1 else ip.concrete_items(args[0])
         if xs is None:
